@@ -457,16 +457,16 @@ def run(model: RepoModel, rep, tier: str):
                     visited_sets = {x.func.value.id for k in cfg.loop_body_nodes[h] for x in cfg.calls_at(k)
                                     if isinstance(x.func, ast.Attribute) and x.func.attr == "add" and isinstance(x.func.value, ast.Name)}
                     guarded = False
-                    for t, lab in cfg.controlling_branches(n):
-                        if not isinstance(t, ast.If):
-                            continue
-                        for cmp_ in ast.walk(t.test):
+                    for atom, truth in cfg.conditions_at(n):
+                        for cmp_ in ast.walk(atom):
                             if isinstance(cmp_, ast.Compare) and len(cmp_.ops) == 1 and isinstance(cmp_.comparators[0], ast.Name) \
                                     and cmp_.comparators[0].id in visited_sets:
-                                if isinstance(cmp_.ops[0], ast.NotIn) and lab == "T":
+                                if isinstance(cmp_.ops[0], ast.NotIn) and truth and cmp_ is atom:
                                     guarded = True
-                                if isinstance(cmp_.ops[0], ast.In) and lab == "F":
+                                if isinstance(cmp_.ops[0], ast.In) and not truth and cmp_ is atom:
                                     guarded = True
+                                if cmp_ is not atom and ((isinstance(cmp_.ops[0], ast.NotIn) and truth) or (isinstance(cmp_.ops[0], ast.In) and not truth)):
+                                    guarded = True      # part of a larger test, polarity as before
                     if not guarded:
                         bad = cl
         delegated = any(is_self_attr(cl.func) and cl.func.attr.startswith("_propagate") for n in cfg.loop_body_nodes[h] for cl in cfg.calls_at(n))
